@@ -40,3 +40,42 @@ PROPS["C02"] = pbt(
             "reopened_section": 0.03, "keyless_section": 0.05, "empty_value": 0.10, "no_final_newline": 0.08,
             "groupless_and_sections": 0.15},
 )
+
+PROPS["C05"] = pbt(
+    "pbt_c05", "pbt_c05.cpp",
+    rule=("F = conventional single-line-value file (DESIGN 5.1 without continuation lines) over all delimiter and "
+          "comment sets; 1-6 wild comment lines (blank* c text, text over the full printable alphabet incl. comment "
+          "characters, delimiters, quotes, brackets) inserted at arbitrary positions, >=50% directly after an entry; "
+          "three reads per case (F, F+insertions, F minus its comment lines), each compared with the AST model; "
+          "non-trivial = an inserted line directly follows an entry, or has >=2 comment characters, or contains a "
+          "delimiter/quote/bracket; distinct = file skeleton + insertion positions + character-class profile of the "
+          "inserted lines"),
+    technique="property-based testing: metamorphic relation kv(F) = kv(F + comment lines) = kv(F - comment lines), plus AST oracle",
+    level_text=("generated search with a metamorphic oracle: inserting or deleting comment lines must leave sections, "
+                "keys and values unchanged; all three variants are additionally compared with the AST the file was "
+                "printed from. 100k (quick) / 3M (thorough) file triples."),
+    level_note="trusts the grammar printer/model in src/common; comments and line numbers are excluded from the comparison (they legitimately move)",
+    quick={"cases": 100000},
+    thorough={"cases": 3000000},
+    floors={"indented_insert": 0.30, "second_comment_char": 0.30, "insert_after_entry": 0.40,
+            "delim_nonblank": 0.10, "delim_blank": 0.10, "delim_mixed": 0.10, "delim_none": 0.05},
+)
+
+PROPS["C03"] = pbt(
+    "pbt_c03", "pbt_c03.cpp",
+    rule=("(i) bounded-exhaustive: every ordered pair of entry lists of length <= L (L=3 quick: 259^2 pairs, L=4 "
+          "thorough: 1555^2 pairs) over {group-less,A,B} x {x,y}, realised through the setters (no duplicate) or by "
+          "printing+parsing (group-less entries leading); pairs needing both are counted as unrealisable; (ii) the four "
+          "kinds of empty object on either side against all lists of length <= 2; (iii) random larger pairs (<=30 "
+          "entries, 6 sections, 6 keys, empty and multi-line values). Oracle M1-M7 of DESIGN 6.2. non-trivial = one "
+          "side empty or the two share a section; distinct = pair index (exhaustive) / hash of both (section,key) sequences"),
+    technique="bounded-exhaustive enumeration + property-based testing against a reference merge specification (M1-M7), rapidcheck",
+    level_text=("every pair of small entry lists is enumerated (complete for the stated sub-space, reported under "
+                "exhaustive_subspaces), larger pairs are sampled; each result is checked against the declarative merge "
+                "specification (visible values, nothing invented, multiplicities, key and section order, inputs "
+                "unchanged, result independent of freed inputs)."),
+    level_note="trusts the specification M1-M7 as transcription of the property; objects are built only through the public API",
+    quick={"cases": 100000, "modes": [["exh", "3", str(k), "8"] for k in range(8)] + [["empties"]]},
+    thorough={"cases": 3000000, "modes": [["exh", "4", str(k), "16"] for k in range(16)] + [["empties"]]},
+    floors={"base_reopens_section": 0.10, "override_only_groupless": 0.10, "base_nonleading_groupless": 0.08},
+)
